@@ -177,6 +177,10 @@ def unsplit_netloc(username, password, hostname, port):
     else:
         auth = None
 
+    # NOTE: parsed IPv6 hostnames have lost their brackets
+    if ":" in hostname:
+        hostname = "[" + hostname + "]"
+
     if auth:
         hostname = auth + "@" + hostname
     if port:
